@@ -123,8 +123,10 @@ def _observe_doc_in_context(doc, ad, rid, times, detail, use_cache):
     tk, ok = ticks_of(Fraction(st) - t0, D)
     seqt.append(tk if ok else -7)
     seqd.append([r["digest"] for r in project_isd(isd, False, names) if r["paints"]])
+  from .docgen import step_boundaries
   rec = {"id": rid, "doc": {k: ad[k] for k in TTML_FIELDS}, "times": times, "obs": obs, "sig": sigticks, "sigok": sigok,
          "rpaint": _may_paint(doc, ad),
+         "own": sorted({own for own, par, has_off in step_boundaries(ad) if has_off and own != par and own >= 0}),
          "seqt": seqt, "seqd": seqd, "params": params, "srcparams": doc_params(doc)}
   if use_cache:
     rec["obsc"] = obsc
